@@ -45,7 +45,11 @@ def mk(cols, tuples, carrier, n, fnkey, rng):
         meta["n"] = len(tuples)
     else:
         win = "CountingWindow(%d)" % n
-    gb = ", ".join(order + [win]) if cols else win
+    # clause layout: keys before or after the window function, optionally followed directly by a (non-binding) LIMIT
+    lay = rng.choice(["keys_first", "keys_first", "win_first"])
+    gb = (", ".join(order + [win]) if lay == "keys_first" or carrier == "tumbling" else ", ".join([win] + order)) if cols else win
+    if carrier != "tumbling" and rng.random() < 0.4:
+        gb += " LIMIT 100"
     sql = "SELECT %s%s FROM stream GROUP BY %s" % (sel_keys + ", " if cols else "", SEL, gb)
     return {"meta": meta, "sql": sql, "rows": rows}
 
